@@ -93,6 +93,8 @@ class AsyncWorld:
                     await w.server.disconnect(e[1])
                 elif k == 'yield':
                     await asyncio.sleep(0)
+                elif k == 'sleep':
+                    await asyncio.sleep(e[1])
                 elif k == 'save':
                     await w.server.save_session(e[1], e[2])
                 else:
